@@ -34,7 +34,9 @@ def one(d):
     sh(f"git -C /repo worktree remove --force {wt}")
     shutil.rmtree(wt, ignore_errors=True)
     res["still_valid"] = bool(res.get("patch_applies") and res["demo_clean_rc"] == 0 and res.get("demo_patched_rc", 0) != 0)
-    json.dump(res, open(os.path.join(d, "revalidation.json"), "w"), indent=1)
+    seed = os.environ.get("VERIF_SEED", "0") or "0"
+    res["seed"] = int(seed)
+    json.dump(res, open(os.path.join(d, "revalidation.json" if seed == "0" else f"revalidation.seed{seed}.json"), "w"), indent=1)
     return res
 
 if __name__ == "__main__":
